@@ -114,8 +114,8 @@ def curve_anchors(ck, tier, builds=('K1',)):
                     e, x = curve_kernel(ctx, t, direction)
                     ck.count('curve_kernels')
                     budget1 = 5.7e-4 if (t == 'PerceptualQuantizer' and direction == 'to_gamma') else 2.5e-4
-                    f0 = fold(e, {x.id: X.const(x.ty, 0.0)})
-                    f1 = fold(e, {x.id: X.const(x.ty, 1.0)})
+                    f0 = fold(e, {x.id: X.const(x.ty, 0.0)}, ctx.crate)
+                    f1 = fold(e, {x.id: X.const(x.ty, 1.0)}, ctx.crate)
                     if not (f0.is_const and f1.is_const):
                         ck.ob(base, 'UNDECIDED', 'curve does not fold to a constant at the anchors'); continue
                     if not t.startswith('Logarithmic'):
